@@ -2,7 +2,7 @@
 parts of C04 (mode c04http) and C06 (mode c06http).  The properties' anchors name the root copies (/repo/restli/*.go,
 /repo/codegen/resources/): the v2 parts of these checks run harness/httpdrv against the bindings of the v2 generator only.
 
-    roothttp.run_root(run, mode, tier, seed)         mode in c02 c08 c04http c06http
+    roothttp.run_root(run, mode, tier, seed)         mode in c02 c08 c04http c06http c07http
 
 is called by a check AFTER its v2 part with the check's own lib.Run (same contract as rootmode.run_root).  It
   1. converts the resource family (family.TYPES + RES_TYPES + RESOURCES) to the spec format of the ROOT spec parser
@@ -23,7 +23,7 @@ is called by a check AFTER its v2 part with the check's own lib.Run (same contra
      textually the same after the package renaming except a listed set (client-side envelope readers, the missing
      partial-update-with-return-entity).  When RootHttpCorr no longer compiles the model does not apply: the run is oracle-only and
      a broken correspondence is recorded, naming the declarations that differ;
-     c04http / c06http: oracle only (as in the v2 part);
+     c04http / c06http / c07http: oracle only (as in the v2 part);
   5. stores the coverage under run.cov["root_http"].
 It never raises: a failure to build or run is recorded in run.broken.
 
@@ -38,7 +38,7 @@ import family, httpdrv, rootcodec
 from lib import *
 
 # files of harness/httpdrv reused (after the rewrites below); main.go is replaced by harness/roothttp/root_main.go
-SHARED = ["env.go", "dyn.go", "gen.go", "schema.go", "val.go", "c02.go", "c02coq.go", "c08.go", "c04http.go", "c06http.go"]
+SHARED = ["env.go", "dyn.go", "gen.go", "schema.go", "val.go", "c02.go", "c02coq.go", "c08.go", "c04http.go", "c06http.go", "c07http.go"]
 
 V2_COMMON = "github.com/PapaCharlie/go-restli/v2/restlidata/generated/com/linkedin/restli/common"
 
@@ -276,7 +276,7 @@ def build_driver(work, race=False, name="drv"):
 
 # ------------------------------------------------------------------------------------------------ run
 
-MODES = ("c02", "c08", "c04http", "c06http")
+MODES = ("c02", "c08", "c04http", "c06http", "c07http")
 CORR = dict(c02="Corr/C02Corr.vo", c08="Corr/C08Corr.vo")
 ROOT_TABLES = ["TablesCodec", "TablesRouter", "TablesTunnel", "TablesStatus", "TablesStatusRoot", "TablesRootHttp"]
 
